@@ -1590,7 +1590,18 @@ func c02dVmEmpty(rng *Rng, cs *c02dCase, witness bool) {
 			use = c02dInst{op: "fst", a: 2, b: 6}
 		}
 	}
-	p = append(p, a, c02dInst{op: "sexec", a: 0}, b, c02dInst{op: "sexec", a: cs.exec}, c02dInst{op: "wait", a: 1, b: 15}, use)
+	if !witness && rng.Chance(50) {
+		// a third access right after EXEC is restored: it must form its own transactions (nothing the
+		// unit remembered for the transaction-less access before it may be reused)
+		c := c02dInst{op: "fld", a: 9, b: 2}
+		if rng.Chance(30) {
+			c = c02dInst{op: "fst", a: 2, b: 6}
+		}
+		p = append(p, a, c02dInst{op: "sexec", a: 0}, b, c02dInst{op: "sexec", a: cs.exec}, c, c02dInst{op: "wait", a: 0, b: 15},
+			c02dInst{op: "vxor", a: 8, b: 4, c: 9}, use)
+	} else {
+		p = append(p, a, c02dInst{op: "sexec", a: 0}, b, c02dInst{op: "sexec", a: cs.exec}, c02dInst{op: "wait", a: 1, b: 15}, use)
+	}
 	cs.holdIdx = -1
 	if witness || rng.Chance(60) {
 		cs.holdIdx = len(p)
